@@ -9,7 +9,7 @@ LEVEL = "proof"
 RULE = ("cases = pairs (A,B) of explicit tree automata over a ranked alphabet {a/0,b/0,g/1,f/2}(+h/3) with optional pre-filled union maps: corpus; "
         "complete slice (all A with <=2 states,<=2 rules x all B with 1 state,<=2 rules); targeted (overlapping / disjoint / sparse numbers, empty "
         "operands, useless states, unproductive product pairs, pre-filled maps from a previous call or with values far above the counter, "
-        "common sub-languages); random pairs up to 4+4 states. Each case runs Union, UnionDisjointStates (if disjoint), Intersection, IntersectionBU. "
+        "common sub-languages, operands that are modified copies of one base automaton and physically share rule storage); random pairs up to 4+4 states. Each case runs Union, UnionDisjointStates (if disjoint), Intersection, IntersectionBU. "
         "Non-trivial = both operand languages non-empty; distinct by rule/final sets and prefill")
 EXHAUSTIVE_SLICES = "all A with <=2 states, <=2 rules x all B with 1 state, <=2 rules over {a/0,b/0,g/1,f/2}, every final set, no prefill (the run as a whole is not exhaustive)"
 TRUSTED_BASE = [
@@ -56,6 +56,16 @@ def targeted(rng):
         b.rules += extra.rules
         if rng.random() < 0.5 and b.rules: b.rules.pop(rng.randrange(len(b.rules)))
         out.append(line(a, b) if rng.random() < 0.5 else line(b, a))
+    for _ in range(500):   # operands that physically share storage: copies of one base automaton, modified afterwards
+        base = gen.rand_ta(rng, rng.randint(2, 4), rng.randint(2, 7), pfinal=0.0, leafbias=0.2)
+        st = sorted(base.states()) or [0]
+        a = base.copy(); b = base.copy()
+        a.rules += gen.rand_ta(rng, 0, rng.randint(0, 3), states=st + [max(st) + 1], leafbias=0.6).rules
+        b.rules += gen.rand_ta(rng, 0, rng.randint(0, 3), states=st + [max(st) + 1], leafbias=0.6).rules
+        a.finals = [q for q in st if rng.random() < 0.5] or [st[0]]
+        b.finals = [q for q in st if rng.random() < 0.5] or [st[0]]
+        if rng.random() < 0.3: b.finals = list(a.finals)
+        out.append(line(a, b) + " SHARE %d" % len(base.rules))
     for _ in range(150):   # useless / unproductive pairs
         a = gen.rand_ta_sized(rng, 4, 8, leafbias=0.15, pfinal=0.3); b = gen.rand_ta_sized(rng, 4, 8, leafbias=0.15, pfinal=0.3)
         out.append(line(a, b))
@@ -79,8 +89,11 @@ def nontrivial(c, impl, verd): return " Anonempty" in verd and " Bnonempty" in v
 def observe(dist, c, impl, verd):
     for k in ("Aempty", "Bempty", "Xempty", "Xnonempty", "overlap", "disjoint"):
         if (" " + k) in verd: dist[k] = dist.get(k, 0) + 1
+    if " SHARE " in c: dist["operands_sharing_storage"] = dist.get("operands_sharing_storage", 0) + 1
     if " PL 0 PR 0" not in c: dist["prefilled"] = dist.get("prefilled", 0) + 1
-def shrink_candidates(c): return gen.shrink_automata(c)
+def shrink_candidates(c):
+    if " SHARE " in c: return iter(())          # the sharing prefix must stay aligned: such cases are reported unshrunk
+    return gen.shrink_automata(c)
 def explain(c, impl, verd):
     return ("case = bin <A> <B> PL <prefilled lhs map> PR <prefilled rhs map>; impl = U <Union result> ML/MR <final maps> D <UnionDisjointStates|SKIP> "
             "X <Intersection> PM <product map> XB <IntersectionBU> PM <product map> I <operands afterwards>; gates: *_lang = exact union/intersection "
